@@ -18,6 +18,7 @@ import dataclasses
 import json
 import os
 import sys
+import threading
 import time
 import traceback
 import uuid
@@ -264,7 +265,9 @@ class World:
         self.created = []   # handles of descriptors created by the generator (alive)
         self.deleted = []   # handles deleted by the generator (candidates for re-creation): (handle, parent, kind)
         from sdc11073.mdib import consumermdib
-        self._thread_patch = mock.patch.object(consumermdib.threading, 'Thread', SyncThread)
+        import types
+        # only the name `threading` inside consumermdib (it uses threading.Thread for the id-changed event, nothing else)
+        self._thread_patch = mock.patch.object(consumermdib, 'threading', types.SimpleNamespace(Thread=SyncThread))
         self._thread_patch.start()
 
     BINDINGS = (('waveform_report', '_on_waveform_report'), ('episodic_metric_report', '_on_episodic_metric_report'),
@@ -738,11 +741,17 @@ def gen_schedule(hist: History, rng, count=None):
         if rng.random() < 0.3:
             later = [j for j, c in enumerate(caps) if c.wire_len >= cap.wire_len and c.snap.vg[1] == cap.snap.vg[1]]
             ctx_idx = rng.choice(later)
-        return ('reload', cap_idx, ctx_idx, during if (style in ('inflight', 'chaos') or rng.random() < 0.3) else [])
+        during = during if (style in ('inflight', 'chaos') or rng.random() < 0.3) else []
+        nxt = max([cap.wire_len] + [i + 1 for i in during])
+        if rng.random() < 0.2 and nxt < n and hist.reports[nxt].vg[1:] == cap.snap.vg[1:]:
+            # forced interleaving of a notification thread with reload_all at the buffer lock of the pre-check
+            return ('race', cap_idx, ctx_idx, during, nxt, rng.choice(['before-lock', 'in-lock']))
+        return ('reload', cap_idx, ctx_idx, during)
 
     first = inflight(c0)
     ev.append(first)
-    pos = max([caps[c0].wire_len] + [i + 1 for i in first[3]]) if rng.random() < 0.8 else caps[c0].wire_len
+    pos = max([caps[c0].wire_len] + [i + 1 for i in first[3]] + ([first[4] + 1] if first[0] == 'race' else [])) \
+        if rng.random() < 0.8 else caps[c0].wire_len
     order = list(range(pos, n))
     if style == 'lossy':
         order = [i for i in order if rng.random() < 0.7]
@@ -778,7 +787,7 @@ def gen_schedule(hist: History, rng, count=None):
     cur_epoch_seq = caps[c0].snap.vg[1:]
     for e in ev:
         out.append(e)
-        if e[0] == 'reload':
+        if e[0] != 'deliver':
             cur_epoch_seq = caps[e[1]].snap.vg[1:]
         elif hist.reports[e[1]].vg[1:] != cur_epoch_seq and rng.random() < 0.5:
             fitting = [j for j, c in enumerate(caps) if c.snap.vg[1:] == hist.reports[e[1]].vg[1:]]
@@ -876,6 +885,64 @@ def fmt_notif(rk, h=(), c=(), u=(), d=(), x=0, e=0):
     return f'k{rk}:h={j(h)}:c={j(c)}:u={j(u)}:d={j(d)}:x={x}:e={e}'
 
 
+class SchedLock:
+    """Traced replacement of ConsumerMdib._buffered_notifications_lock for the forced schedules: the notification thread
+    (`slow`) is stopped at the lock boundary of `_pre_check_report_ok` — 'before-lock': between its read of `_state` and
+    the acquisition, until the harness releases it (after reload_all finished); 'in-lock': inside the critical section,
+    until reload_all itself waits for the lock."""
+    TIMEOUT = 15
+
+    def __init__(self, real):
+        self.real = real
+        self.slow = None
+        self.variant = None
+        self.at_lock = threading.Event()
+        self.release = threading.Event()
+        self.other_waiting = threading.Event()
+        self.on_other_acquired = None
+
+    def arm(self, thread, variant, on_other_acquired=None):
+        self.slow, self.variant, self.on_other_acquired = thread, variant, on_other_acquired
+        for e in (self.at_lock, self.release, self.other_waiting):
+            e.clear()
+
+    def disarm(self):
+        self.slow = self.variant = self.on_other_acquired = None
+
+    def acquire(self, *a, **k):
+        return self.real.acquire(*a, **k)
+
+    def release_lock(self):
+        self.real.release()
+
+    def __enter__(self):
+        me = threading.current_thread()
+        if self.slow is not None and me is self.slow:
+            if self.variant == 'before-lock':
+                self.at_lock.set()
+                if not self.release.wait(self.TIMEOUT):
+                    raise RuntimeError('forced schedule: notification thread was never released')
+                self.real.acquire()
+            else:
+                self.real.acquire()
+                self.at_lock.set()
+                self.other_waiting.wait(self.TIMEOUT)
+        elif self.slow is not None and self.variant == 'in-lock':
+            if not self.real.acquire(False):
+                self.other_waiting.set()
+                self.real.acquire()
+                cb, self.on_other_acquired = self.on_other_acquired, None
+                if cb is not None:
+                    cb()
+        else:
+            self.real.acquire()
+        return self
+
+    def __exit__(self, *exc):
+        self.real.release()
+        return False
+
+
 class Runner:
     """Executes one schedule on a fresh real ConsumerMdib; produces the canonical lines + oracle verdicts."""
 
@@ -896,6 +963,8 @@ class Runner:
         self.rec = Recorder()
         self.rec.bind(self.mdib)
         self._wrap_handlers()
+        self.sched_lock = SchedLock(self.mdib._buffered_notifications_lock)  # noqa: SLF001
+        self.mdib._buffered_notifications_lock = self.sched_lock  # noqa: SLF001
         self.lines = []       # model input
         self.outs = []        # canonical implementation output per model input line
         self.prev = ({}, {}, {})
@@ -996,6 +1065,7 @@ class Runner:
         rep = hist.reports[i]
         before_mode = self.mode()
         before_vg = self.vg()
+        self._rt_before = self._rt_snapshot() if rep.rk == 5 else None
         try:
             self.w.consumer.deliver(hist.wire[i])
             exc = None
@@ -1007,18 +1077,53 @@ class Runner:
                       f'delivering wire[{i}] ({hist.wire[i].short} v{rep.vg[0]}) raised {exc!r}; consumer mdib at {before_vg}')
         self._oracle_delivery(i, rep, before_mode, before_vg, old, new)
 
-    def reload(self, cap_idx, ctx_idx, during):
+    def _rt_snapshot(self):
+        """content of the waveform sample buffers (ConsumerMdib.rt_buffers)"""
+        return {h: tuple((str(x.value), round(x.determination_time * 1000)) for x in list(b.rt_data))
+                for h, b in self.mdib.rt_buffers.items()}
+
+    def reload(self, cap_idx, ctx_idx, during, race=None):
+        """race = (wire index, 'before-lock' | 'in-lock'): a notification thread delivers that report while GetMdib is in
+        flight and is stopped at the buffer lock of _pre_check_report_ok (forced interleaving with reload_all)"""
         hist = self.hist
         cap, capc = hist.captures[cap_idx], hist.captures[ctx_idx]
         reader = self.w.reader
         from sdc11073.consumer.serviceclients.serviceclientbase import GetRequestResult
         runner = self
+        lock = self.sched_lock
+        thread_exc = []
+        thr = None
+        if race is not None:
+            ri, variant = race
+            rrep = hist.reports[ri]
+
+            def notify():
+                try:
+                    runner.w.consumer.deliver(hist.wire[ri])
+                except Exception as ex:  # noqa: BLE001
+                    thread_exc.append(ex)
+            thr = threading.Thread(target=notify, daemon=True)
+
+            def in_lock_observed():
+                # reload_all got the buffer lock after the notification thread left it: the report is in the buffer now.
+                # (the implementation has loaded the answer already, the model loads and replays in one step: only the
+                # state machine and the buffer are compared here, the content after `end`)
+                runner.rec.log = [x for x in runner.rec.log if x[0] == '<handler>' or x[0].startswith('sequence')]
+                runner.lines.append(rrep.line())
+                runner.outs.append(fmt_line(runner.mode(), runner.vg(), len(runner.mdib._buffered_notifications), [],  # noqa: SLF001
+                                            runner.prev, runner.prev))
 
         def fake_get_mdib(*_a, **_k):
             runner.observe('begin')   # state initializing, tables cleared
             runner._oracle_tables('during reload')
             for i in during:
                 runner.deliver(i, inflight=True)
+            if thr is not None:
+                lock.arm(thr, variant, in_lock_observed if variant == 'in-lock' else None)
+                thr.start()
+                if not lock.at_lock.wait(lock.TIMEOUT):
+                    runner.fail('initializing-report-not-buffered', 'forced schedule: the notification thread did not reach the '
+                                                                    'buffer lock while the mdib was initializing')
             md = reader.read_received_message(cap.raw_mdib)
             return GetRequestResult(md, md.msg_reader.read_get_mdib_response(md))
 
@@ -1039,9 +1144,37 @@ class Runner:
             enc_list(s.cstates, enc_s) + enc_list(capc.ctx, enc_s)
         old, new = self.observe('end ' + ' '.join(map(str, toks)))
         if exc is not None:
+            lock.release.set()
+            lock.disarm()
             self.fail('reload-raises:' + type(exc).__name__, f'reload_all raised {exc!r}')
             return
-        self._oracle_reload(cap_idx, ctx_idx, during, new)
+        if race is None:
+            self._oracle_reload(cap_idx, ctx_idx, during, new)
+            return
+        self.count('forced-schedule:' + variant)
+        if variant == 'in-lock':
+            thr.join(lock.TIMEOUT)
+            lock.disarm()
+            self.stats['buffered'] += 1
+            self._oracle_reload(cap_idx, ctx_idx, list(during) + [ri], new)
+        else:
+            # reload_all is finished, the notification thread still waits in front of the buffer lock: let it go on
+            self._oracle_reload(cap_idx, ctx_idx, during, new)
+            before_vg = self.vg()
+            lock.release.set()
+            thr.join(lock.TIMEOUT)
+            lock.disarm()
+            old, new = self.observe('fin' + rrep.line()[3:], rk_for_watchdog=rrep.rk, touched=rrep.touched())
+            where = (f'report wire[{ri}] ({hist.wire[ri].short} v{rrep.vg[0]}) arrived while GetMdib was in flight; its thread got '
+                     f'the buffer lock only after reload_all had replayed the buffer')
+            if self.mdib._buffered_notifications:  # noqa: SLF001
+                self.fail('report-lost-in-buffer-after-load',
+                          f'{where}: the report was appended to the buffer of an initialized mdib (nobody replays it)')
+            self._oracle_delivery(ri, rrep, 'ok', before_vg, old, new)
+        if thr.is_alive():
+            self.fail('notification-thread-blocked', 'forced schedule: the notification thread did not finish')
+        if thread_exc:
+            self.fail('report-handler-raises:' + type(thread_exc[0]).__name__, f'notification thread raised {thread_exc[0]!r}')
 
     # ---- oracle (independent of the Lean model)
     def _oracle_tables(self, where):
@@ -1088,6 +1221,8 @@ class Runner:
             self.in_sync_tx = None
             return
         # initialized, same ids
+        if after_mode == 'ok' and self.mdib._buffered_notifications:  # noqa: SLF001
+            self.fail('report-lost-in-buffer-after-load', f'{where}: the buffer of an initialized mdib is not empty')
         self._count_branches(rep, before_vg, old)
         if after_vg[0] < before_vg[0]:
             self.fail('mdib-version-regressed', f'{where}: MdibVersion {before_vg[0]} -> {after_vg[0]}')
@@ -1103,6 +1238,18 @@ class Runner:
             self.stats['stale'] += 1
         if dup:
             self.stats['dup'] += 1
+        if stale or dup:
+            which = 'stale' if stale else 'duplicated'
+            named = sorted({k for n in self.last_struct for k in n['h']}) if rep.rk != 6 else []
+            if named:
+                self.fail('stale-or-duplicate-announced', f'{where}: {which} report: {OBS_OF_RK[rep.rk]} announces #{named} although '
+                                                          f'nothing changed')
+            if getattr(self, '_rt_before', None) is not None:
+                after = self._rt_snapshot()
+                if after != self._rt_before:
+                    grown = {h: (len(self._rt_before.get(h, ())), len(v)) for h, v in after.items() if self._rt_before.get(h) != v}
+                    self.fail('stale-or-duplicate-changed-rt-buffers', f'{where}: {which} waveform report changed rt_buffers '
+                                                                       f'(samples before, after): {grown}')
         if (stale or dup) and changed:
             self.fail('stale-or-duplicate-changed-mdib' + (':description' if rep.rk == 6 else ''),
                       f'{where}: {"stale" if stale else "duplicated"} report changed the consumer MDIB: '
@@ -1270,10 +1417,13 @@ class Runner:
         for e in schedule:
             if e[0] == 'deliver':
                 self.deliver(e[1])
+            elif e[0] == 'race':
+                self.reload(e[1], e[2], e[3], race=(e[4], e[5]))
             else:
                 self.reload(e[1], e[2], e[3])
         self.full_dump()
-        seen = {e[1] for e in schedule if e[0] == 'deliver'} | {i for e in schedule if e[0] == 'reload' for i in e[3]}
+        seen = {e[1] for e in schedule if e[0] == 'deliver'} | {i for e in schedule if e[0] != 'deliver' for i in e[3]} | \
+            {e[4] for e in schedule if e[0] == 'race'}
         self.stats['dropped'] = len(self.hist.wire) - len(seen)
         return self
 
@@ -1301,7 +1451,7 @@ def _diff_class(diff):
 
 def canon_case(hist: History, schedule):
     return [(e[0], hist.reports[e[1]].line()) if e[0] == 'deliver' else
-            ('reload', e[1], e[2], [hist.reports[i].line() for i in e[3]]) for e in schedule]
+            (e[0], e[1], e[2], [hist.reports[i].line() for i in e[3]]) + tuple(e[4:]) for e in schedule]
 
 
 CHUNK = 5   # histories per fresh provider (a history depends on the provider state left by the earlier ones of its chunk)
@@ -1603,7 +1753,33 @@ def scenario_context_delete_heals(world, rng):
     return rec.hist, [('reload', 0, 0, [])] + [('deliver', i) for i in w]
 
 
-SCENARIOS = (scenario_ctx_answer_newer, scenario_context_delete_heals, scenario_dup_create, scenario_alert_source, scenario_inflight_same_version,
+def scenario_buffer_race(world, rng):
+    """forced schedules at the buffer lock of _pre_check_report_ok: the notification thread reads `initializing`, is stopped
+    in front of / inside the lock section while reload_all finishes / waits: the report must be neither lost nor doubled"""
+    gen = TxGen(world, rng)
+    rec = HistoryRecorder(world)
+    w1 = rec.tx(gen.tx_metric)
+    w2 = rec.tx(gen.tx_alert)
+    w3 = rec.tx(gen.tx_metric)
+    c1 = rec.capture()
+    w4 = rec.tx(gen.tx_metric)
+    w5 = rec.tx(gen.tx_metric)
+    return rec.hist, [('race', 0, 0, [], w1[0], 'before-lock')] + [('deliver', i) for i in w1[1:] + w2 + w3] + \
+        [('race', c1, c1, [], w4[0], 'in-lock')] + [('deliver', i) for i in w4[1:] + w5] + \
+        [('race', c1, c1, w4, w5[0], 'before-lock')] + [('deliver', i) for i in w5[1:]]
+
+
+def scenario_duplicates_announce_nothing(world, rng):
+    """every report delivered twice in a row (MdibVersion equal to the consumer's): the second delivery changes nothing,
+    announces nothing and does not add waveform samples a second time"""
+    gen = TxGen(world, rng)
+    rec = HistoryRecorder(world)
+    w = rec.tx(gen.tx_rt) + rec.tx(gen.tx_metric) + rec.tx(gen.tx_alert) + rec.tx(gen.tx_context_new) + rec.tx(gen.tx_rt) + \
+        rec.tx(gen.tx_component) + rec.tx(gen.tx_operational)
+    return rec.hist, [('reload', 0, 0, [])] + [('deliver', i) for j in w for i in (j, j)]
+
+
+SCENARIOS = (scenario_ctx_answer_newer, scenario_buffer_race, scenario_duplicates_announce_nothing, scenario_context_delete_heals, scenario_dup_create, scenario_alert_source, scenario_inflight_same_version,
              scenario_context_keys, scenario_orphan_state)
 
 
